@@ -76,9 +76,17 @@ def main():
                 p, f, failing, tail = pytest_counts(wt)
                 env0 = dict(os.environ, PYTHONPATH=f'{REPO}/src', PYTHONDONTWRITEBYTECODE='1')
                 env1 = dict(os.environ, PYTHONPATH=f'{wt}/src', PYTHONDONTWRITEBYTECODE='1')
-                d0 = sh(f'cd /tmp && timeout 600 {PY} {d}/demo.py', env=env0)
-                d1 = sh(f'cd /tmp && timeout 600 {PY} {d}/demo.py', env=env1)
-                ok = (p == base[0] and f == base[1] and failing == base[2] and d0.returncode == 0 and d1.returncode != 0)
+                demo = f'{d}/demo.py'
+                if meta.get('kind') == 'refactor':      # these scripts locate the repository's test data relative to their own place in the worktree
+                    os.makedirs(f'{wt}/seeded_out', exist_ok=True)
+                    shutil.copy(demo, f'{wt}/seeded_out/demo.py')
+                    demo = f'{wt}/seeded_out/demo.py'
+                d0 = sh(f'cd /tmp && timeout 900 {PY} {demo}', env=env0)
+                d1 = sh(f'cd /tmp && timeout 900 {PY} {demo}', env=env1)
+                if meta.get('kind') == 'refactor':      # a behaviour-preserving rewrite: the differential script prints the same digest on both trees
+                    ok = (p == base[0] and f == base[1] and failing == base[2] and d0.returncode == 0 and d1.returncode == 0 and d0.stdout == d1.stdout)
+                else:
+                    ok = (p == base[0] and f == base[1] and failing == base[2] and d0.returncode == 0 and d1.returncode != 0)
                 meta['confirmed'] = {
                     'applies': True, 'repo_head': sh(f'git -C {REPO} rev-parse --short HEAD').stdout.strip(),
                     'suite_unchanged_tree': {'passed': base[0], 'failed': base[1], 'failing': base[2]},
@@ -105,7 +113,14 @@ def main():
                         replays.append({'replay': rp, 'error': str(e)})
                 meta['detected'] = {'check': f'./check {pid} --tier {args.tier} (VERIF_REPO=patched scratch worktree)', 'exit': r.returncode,
                                     'violation': bool(viol), 'replays': replays, 'tail': out[-300:] if not viol else ''}
-                print(sid, 'check:', 'DETECTED' if viol and r.returncode == 1 else 'MISSED', [x.get('signature') for x in replays])
+                if meta.get('kind') == 'refactor':
+                    # the property still holds: the check must stay quiet, or report a broken tie and nothing else
+                    concrete = [v for v in viol if 'no-failing-input-found' not in v[2]]
+                    verdict = 'QUIET' if r.returncode == 0 and not viol else 'TIE-BROKEN (no-failing-input-found only)' if not concrete else 'FALSE ALARM'
+                    meta['detected']['refactor_verdict'] = verdict
+                    print(sid, 'check:', verdict, [x.get('signature') for x in replays])
+                else:
+                    print(sid, 'check:', 'DETECTED' if viol and r.returncode == 1 else 'MISSED', [x.get('signature') for x in replays])
             (d / 'meta.json').write_text(json.dumps(meta, indent=1))
         finally:
             sh(f'git -C {REPO} worktree remove --force {wt}')
